@@ -114,7 +114,7 @@ func init() {
 	c14.Pkgs = dbPkgs + ",runtime,modules"
 	c14.ExtPkgs += ",golang.org/x/sync/errgroup"
 	c14.QuickRuns, c14.ThoroughRuns = 8000, 300000
-	c14.Rule = "one evaluation = one simulated run: 1-3 writer goroutines (put with secret/crown-jewel flags, delete, get, push through an injected database - injected directly or through a runtime registry whose provider was registered before the injection) against 0-4 subscriptions (prefix, condition, privileges, cancel at a chosen moment, cancel twice, two subscriptions from one query object) and 0-3 hooks (declared phases, pass/veto/replace, cancel), backend in {hashmap, fstree, bbolt}; seeded schedule; distinct = distinct hash of configuration; non-trivial = at least 2 goroutine switches"
+	c14.Rule = "one evaluation = one simulated run: 1-3 writer goroutines (put with secret/crown-jewel flags, delete, get, push through an injected database - injected directly or through a runtime registry whose provider was registered before the injection) against 0-4 subscriptions (prefix, condition, privileges, cancel at a chosen moment, cancel twice, two subscriptions from one query object) and 0-3 hooks (declared phases, pass/veto/replace, cancel), backend in {hashmap, fstree, bbolt}; batch puts and delayed-write interfaces are not part of the writer workload (Controller.PutMany is documented not to update subscriptions); seeded schedule; distinct = distinct hash of configuration; non-trivial = at least 2 goroutine switches"
 	c14.Stub = []string{"injected storage for the push-update path (harness code)"}
 	c14.Assume = nil
 	props["C14"] = &c14
